@@ -24,9 +24,9 @@ NA.pop("C06", None)
 
 CHECKS["C05"] = (
     "other",
-    "static analysis: table extraction of the face->edge layout from its single producer and def-use / reshape-width agreement checks in every consumer; finite evaluation of winding-test slices",
-    "Decides the layout contract every edge-based topological query relies on (three winding-ordered directed edges per face, contiguous, face index repeated in step; consumers regroup with the same width and take edges and edge->face index from one producer call; winding tests compare head with tail of the twin edge). A necessary condition of C05 for all face arrays; the combinatorial equalities themselves are not decided.",
-    "Trusted: numpy reshape/tile/repeat semantics as modelled; the consumer list was enumerated by reading the repository and is frozen in the checker.",
+    "static analysis: table extraction of the face->edge layout from its single producer; canonical-form (reaching-definition inlined, callee-resolved) structural rules for every consumer and counting formula; finite evaluation of winding-test column selections; no-shortcut rule over every return of the topological queries",
+    "Decides for all face arrays the contract every edge-based topological query relies on: three winding-ordered directed edges per face, contiguous, face index repeated in step; consumers regroup with the same width and take edges and edge->face index from one producer call (sorted within the pair before grouping); adjacency and watertightness are groups of exactly two equal sorted edges; the winding tests compare head with tail of the twin edge; euler_number is V - E(unique) + F; split is connected components of face adjacency over every face; and no query returns an answer that bypasses its counting computation except under an emptiness test. The combinatorial equalities produced by grouping / csgraph and the angle-defect sum are not decided.",
+    "Trusted: numpy reshape/tile/repeat semantics as modelled; canonicalisation in sa/provenance.py; the consumer and query lists were enumerated by reading the repository and are frozen in the checker.",
     "DESIGN.md#c05",
 )
 NA.pop("C05", None)
